@@ -52,6 +52,16 @@ def reference(nums, dens):
     return r
 
 
+def expected(nums, dens, style=None):
+    """the reference result; styles 6 / 7: the k-th numerator / denominator is k * (first one), see program()"""
+    n, d = len(nums), len(dens)
+    if style == 6:
+        return reference(tuple(nums[0] * (i + 1) for i in range(n)), dens) if nums[0] * n <= M64 else None
+    if style == 7:
+        return reference(nums, tuple(dens[0] * (i + 1) for i in range(d))) if dens[0] * d <= M64 else None
+    return reference(nums, dens)
+
+
 def program(n, d, lits=None):
     """factors come from application arguments, except the positions in `lits` (position in the combined
     numerator+denominator list -> Python int), which are literal Int constants"""
@@ -75,6 +85,15 @@ def program(n, d, lits=None):
         ratio = pt.WideRatio(denominatorFactors=dens, numeratorFactors=nums)
     elif grown == 5:
         ratio = pt.WideRatio(nums, denominatorFactors=dens)
+    elif grown in (6, 7):
+        # ONE expression object fills every numerator (6) / denominator (7) position; it counts its evaluations, the
+        # k-th evaluation yields k * (first argument of that list): the product over the list is the same whatever
+        # order the positions are evaluated in
+        ctr = pt.ScratchVar(pt.TealType.uint64)
+        first = nums[0] if grown == 6 else dens[0]
+        tick = pt.Seq(ctr.store(ctr.load() + pt.Int(1)), ctr.load() * first)
+        ratio = pt.WideRatio([tick] * n, dens) if grown == 6 else pt.WideRatio(nums, [tick] * d)
+        return pt.Seq(ctr.store(pt.Int(0)), pt.App.globalPut(pt.Bytes("r"), ratio), pt.Int(1))
     else:
         ratio = pt.WideRatio(nums, dens)
     return pt.Seq(pt.App.globalPut(pt.Bytes("r"), ratio), pt.Int(1))
@@ -153,7 +172,7 @@ def _worker(items, base):
         cnt["states"] = cnt.get("states", 0) + 1
         cnt["transitions"] = cnt.get("transitions", 0) + n + d
         for nums, dens in cases:
-            exp = reference(nums, dens)
+            exp = expected(nums, dens, lits.get(-1))
             oc["exact" if exp is not None else "must_fail"] = oc.get("exact" if exp is not None else "must_fail", 0) + 1
             args = [x.to_bytes(8, "big") for x in nums + dens]
             for cfg, text, p in progs:
@@ -213,6 +232,12 @@ def run(tier):
                 items.append((n, d, versions[1:3], {-1: 1}))
                 items.append((n, d, versions[1:3], {-1: 2}))
                 nlit += 2
+                if n >= 2:
+                    items.append((n, d, versions[1:3], {-1: 6}))
+                    nlit += 1
+                if d >= 2:
+                    items.append((n, d, versions[1:3], {-1: 7}))
+                    nlit += 1
                 if n + d <= 4:
                     for style in (3, 4, 5):     # keyword / reordered keyword / mixed call styles
                         items.append((n, d, versions[1:2], {-1: style}))
@@ -235,7 +260,7 @@ def replay(case):
     text = rb.compile_cfg(program(n, d, {int(k): v for k, v in case.get("lits", {}).items()}), cfg)
     args = [x.to_bytes(8, "big") for x in case["nums"] + case["dens"]]
     res = interp.run(asm.assemble(text), interp.Ctx(mode="A", group=[interp.default_txn(ApplicationArgs=args)]), fuel=5000)
-    exp = reference(case["nums"], case["dens"])
+    exp = expected(tuple(case["nums"]), tuple(case["dens"]), case.get("lits", {}).get("-1"))
     got = dict((e[1], e[2]) for e in res.effects if e[0] == "gput").get(b"r") if res.verdict == "APPROVE" else None
     print("expected", exp, "got", res.verdict, got)
     return not ((exp is None and res.verdict == "FAIL") or (exp is not None and res.verdict == "APPROVE" and got == exp))
